@@ -408,6 +408,27 @@ def custom_worker_sites(nn, mode):
         info = nn.pipeline(q, leaf, {})
         if info is None:
             raise AnalysisBroken(f"{q}: returned value {show(leaf, 120)} is outside the triplet-pipeline idiom list (comp -> filter -> sorted -> slice)")
+        if "accum" in info:
+            # loop-built list: one site per append into that list, the later pipeline stages attached
+            name = info["accum"][2]
+            srcs = [st for st in nn.sites(q, mode) if st.kind == "append" and st.coll is not None and any(x[0] in ("phi", "after") and x[2] == name for x in walk(("t", st.coll))) or
+                    (st.kind == "append" and head(strip(st.coll)) in ("list",) and False)]
+            if not srcs:
+                srcs = [st for st in nn.sites(q, mode) if st.kind == "append"]
+            if not srcs:
+                raise AnalysisBroken(f"{q}: no insertion into the returned list {name} found")
+            for st in srcs:
+                for lam in info["filters"]:
+                    lam = strip(lam)
+                    body = apply_lam(lam, (("tuple", (st.a, st.b, st.d)),), {}) if head(lam) == "lam" else None
+                    if body is None:
+                        raise AnalysisBroken(f"{q}: cannot apply filter predicate")
+                    st.guards.extend(lits(simplify(body), True))
+                st.kind = "pipeline"
+                st.extra["pipeline"] = info
+                st.extra["branch"] = guards
+                out.append(st)
+            continue
         comp = info["comp"]
         trip = strip(comp[2])[1]
         g = []
